@@ -12,6 +12,7 @@ import (
 // c16Loader: a loader over three candidate paths (the extension list) with symbolic
 // exists / open-fails / unparsable flags per candidate; it records every call.
 type c16Loader struct {
+	readFail map[string]bool
 	exists   map[string]bool
 	openFail map[string]bool
 	content  map[string]string
@@ -23,14 +24,24 @@ func (l *c16Loader) Exists(p string) bool {
 	return l.exists[p]
 }
 
-type c16FailReader struct{}
+// c16FailReader yields a parsable prefix and then fails.
+type c16FailReader struct{ done bool }
 
-func (c16FailReader) Read(p []byte) (int, error) { return 0, errors.New("read failed") }
+func (r *c16FailReader) Read(p []byte) (int, error) {
+	if !r.done {
+		r.done = true
+		return copy(p, "prefix"), nil
+	}
+	return 0, errors.New("read failed")
+}
 
 func (l *c16Loader) Open(p string) (io.ReadCloser, error) {
 	l.calls = append(l.calls, "O:"+p)
 	if l.openFail[p] {
 		return nil, errors.New("open failed")
+	}
+	if l.readFail[p] {
+		return ioutil.NopCloser(&c16FailReader{}), nil
 	}
 	return ioutil.NopCloser(bytes.NewReader([]byte(l.content[p]))), nil
 }
@@ -81,8 +92,12 @@ func H_C16_lookup() {
 			l.exists[p] = true
 			if firstExisting < 0 {
 				firstExisting = k
-				if ndBool("openfail") {
+				switch ndChoice("fault", 3) {
+				case 1:
 					l.openFail[p] = true
+					openFails = true
+				case 2:
+					l.readFail = map[string]bool{p: true}
 					openFails = true
 				}
 				if ndBool("unparsable") {
